@@ -8,10 +8,10 @@ import time
 
 import z3
 
-Z3_TIMEOUT_MS = int(os.environ.get("PYVC_Z3_TIMEOUT_MS", "20000"))
+Z3_TIMEOUT_MS = int(os.environ.get("PYVC_Z3_TIMEOUT_MS", "10000"))
 INC_TIMEOUT_MS = int(os.environ.get("PYVC_INC_TIMEOUT_MS", "3000"))
-EMATCH_TIMEOUT_MS = int(os.environ.get("PYVC_EMATCH_TIMEOUT_MS", "8000"))
-CVC5_TIMEOUT_S = int(os.environ.get("PYVC_CVC5_TIMEOUT_S", "30"))
+EMATCH_TIMEOUT_MS = int(os.environ.get("PYVC_EMATCH_TIMEOUT_MS", "6000"))
+CVC5_TIMEOUT_S = int(os.environ.get("PYVC_CVC5_TIMEOUT_S", "12"))
 CVC5 = os.environ.get("PYVC_CVC5", "/usr/bin/cvc5")
 
 
@@ -19,8 +19,9 @@ class PathSolver:
     """Obligations of one path share an incremental E-matching solver (facts only grow along a
     path); whatever it leaves open is re-tried one-shot (E-matching, then MBQI, then cvc5)."""
 
-    def __init__(self, facts):
+    def __init__(self, facts, hard_names=None):
         self.facts = facts
+        self.hard = hard_names if hard_names is not None else set()
         self.n = 0
         self.s = z3.Solver()
         self.s.set("auto_config", False)
@@ -45,8 +46,14 @@ class PathSolver:
                 ob.pc = tuple(self.facts[:ob.nfacts])
                 discharge(ob, recheck_cvc5=True)
             return ob
+        if ob.name in self.hard:
+            # an earlier path instance of this obligation already resisted every back end
+            ob.status, ob.backend, ob.time = "unknown", "z3:skipped-after-earlier-unknown", time.time() - t0
+            return ob
         ob.pc = tuple(self.facts[:ob.nfacts])
         discharge(ob, recheck_cvc5=recheck_cvc5)
+        if ob.status != "discharged":
+            self.hard.add(ob.name)
         ob.time = time.time() - t0
         return ob
 
